@@ -1,6 +1,7 @@
 package govc
 
 import (
+	"sync"
 	"fmt"
 	"go/types"
 	"math"
@@ -132,7 +133,20 @@ func (w *World) NilIface() *Term { return Mk(w.IfaceDT(), IntLit(0), IntLit(0)) 
 
 // TypeKey is the heap key for an element / pointee Go type.
 func TypeKey(t types.Type) string {
-	return sanitize(types.TypeString(t, func(p *types.Package) string { return p.Name() }))
+	k := sanitize(types.TypeString(t, func(p *types.Package) string { return p.Name() }))
+	typeKeyReg.Store(k, t)
+	return k
+}
+
+// typeKeyReg: heap key suffix -> Go type, so that a heap named only by an effect set can be
+// materialized before it is havoced
+var typeKeyReg sync.Map
+
+func typeOfKey(k string) types.Type {
+	if t, ok := typeKeyReg.Load(k); ok {
+		return t.(types.Type)
+	}
+	return nil
 }
 
 // TypeID returns the dynamic type tag for interface values (0 is nil).
